@@ -1,6 +1,7 @@
 import FxVerif.Model.C09
 import FxVerif.Model.C09Shape
 import FxVerif.Model.C09Dep
+import FxVerif.Model.C09Block
 import FxVerif.Proofs.C09
 import FxVerif.Proofs.C09Ext
 import FxVerif.Gen.C09
@@ -458,6 +459,79 @@ theorem evm_create_program_as_modelled (h : CallHdr N) (callee : St N → Outcom
   · simp [execC, stepC, hf]
   · rcases hc : callee (s.enter h) with ⟨o, s1, g1⟩
     cases o <;> simp [execC, stepC, hf, hc]
+
+/-- CREATE2 (round 5: salted constructors are part of the generated programs): the fork's two entry points of contract
+creation — `(*EVM).Create` (opCreate) and `(*EVM).Create2` (opCreate2), regenerated from the module cache — are exactly the
+reviewed ones: each computes the new contract's address (nonce-derived / salted hash of the init code) and then, as its
+LAST statement, returns whatever `evm.create` returns, calling no StateDB method before that except the nonce read of
+`Create`.  So a CREATE2 frame runs the very program `progCreate` of `evm_create_program_as_modelled` — same balance check,
+Snapshot, endowment Transfer, init code, RevertToSnapshot — and only the address differs; a fork that gave `Create2` its
+own snapshot handling (or touched the StateDB before handing over) breaks this obligation -/
+theorem create2_runs_the_create_program :
+    createEntries = reviewedCreateEntries ∧ createEntries.all createEntryOk = true ∧
+    createEntries.map (·.1) = ["Create", "Create2"] ∧ createEntries.map (·.2.2.2.1) = ["CREATE", "CREATE2"] := by decide
+
+/-! ### round 5 — the transaction inside a block (`Model/C09Block.lean`: baseapp around the message server, hand-modelled) -/
+
+/-- a transaction the ante handler refuses changes nothing at all: no store, no nonce, no fee -/
+theorem block_refused_changes_nothing (signersOk : Bool) (fuel gas price : Nat) (p : List (Prog N)) (c : Chain N) :
+    deliver false signersOk fuel gas price p c = (.refused, c) := by simp [deliver]
+
+/-- a delivered transaction whose message is dropped after it ran — a panic that nothing recovered, or (pinned tree) the
+post-processing of the result failing — keeps the ante handler's effects and NOTHING of the message, whatever the program
+did before (no shape condition): EVM storage, native stores and logs are the ones before the block, the nonce moved by
+one, the whole gas limit is paid (the refund is part of the dropped message) -/
+theorem block_dropped_keeps_only_ante_effects (signersOk : Bool) (fuel gas price : Nat) (p : List (Prog N)) (c : Chain N)
+    (h : (deliver true signersOk fuel gas price p c).1 = .dropped) :
+    (deliver true signersOk fuel gas price p c).2 = { c with nonce := c.nonce + 1, paid := c.paid + gas * price } := by
+  simp only [deliver, Bool.not_true, Bool.false_eq_true, ↓reduceIte] at h ⊢
+  split at h
+  · rename_i hc; simp [hc]
+  · cases h
+example : (deliver true false 5 100 7 ([] : List (Prog Nat)) ⟨⟨fun _ => 0, 0, []⟩, 3, 0⟩).1 = .dropped := by decide
+
+/-- on a tree where the codec cannot name the signer of `MsgEthereumTx` (`signersOk = false`: the pinned one) EVERY
+accepted transaction is dropped: no program, gas limit or fuel commits anything through a block -/
+theorem block_without_signers_commits_no_message (fuel gas price : Nat) (p : List (Prog N)) (c : Chain N) :
+    (deliver true false fuel gas price p c).1 = .dropped ∧ (deliver true false fuel gas price p c).2.view = c.view := by
+  simp [deliver]
+
+/-- block-level atomicity (`atomicity` lifted through `deliver`), every clean program, fuel, gas limit, gas price and
+chain state: a delivered transaction whose EVM execution does not end normally commits the state before the block (plus
+nonce and the fee for the gas used); one that ends normally commits exactly the final state of the declarative
+semantics — Cosmos-side and EVM-side effects of the surviving frames together -/
+theorem block_atomicity (fuel gas price : Nat) (p : List (Prog N)) (c : Chain N) (hc : Clean p) (o : Outcome)
+    (h : (deliver true true fuel gas price p c).1 = .executed o) :
+    (o ≠ .ok → (deliver true true fuel gas price p c).2.view = c.view) ∧
+    (o = .ok → (deliver true true fuel gas price p c).2.view = (spec fuel false gas p c.view).2.1) ∧
+    (deliver true true fuel gas price p c).2.nonce = c.nonce + 1 ∧ o ≠ .abort := by
+  have hat := atomicity fuel gas p c.view hc
+  simp only [deliver, Bool.not_true, Bool.false_eq_true, ↓reduceIte, Bool.or_false, decide_eq_true_eq] at h ⊢
+  split at h
+  · cases h
+  · rename_i hab
+    have ho : (runTx fuel gas p c.view).1 = o := by injection h
+    simp only [hab, ↓reduceIte]
+    exact ⟨fun hne => hat.1 (ho ▸ hne), fun heq => hat.2 (ho.trans heq), trivial, fun e => hab (ho.trans e)⟩
+example : Clean ([] : List (Prog Nat)) ∧
+    (deliver true true 5 100 7 ([] : List (Prog Nat)) ⟨⟨fun _ => 0, 0, []⟩, 3, 0⟩).1 = .executed .ok := ⟨.nil, by decide⟩
+
+/-- any list of deliveries by one sender: the nonce counts exactly the transactions the ante handler accepted — failed
+and dropped ones included — and nothing else moves it -/
+theorem block_nonce_counts_accepted (signersOk : Bool) (fuel price : Nat) (txs : List (Bool × Nat × List (Prog N))) (c : Chain N) :
+    (deliverAll signersOk fuel price txs c).nonce = c.nonce + (txs.filter (·.1)).length := by
+  induction txs generalizing c with
+  | nil => simp [deliverAll]
+  | cons t rest ih =>
+    obtain ⟨a, g, p⟩ := t
+    simp only [deliverAll]
+    rw [ih]
+    cases a
+    · simp [deliver]
+    · have : (deliver true signersOk fuel g price p c).2.nonce = c.nonce + 1 := by
+        simp only [deliver, Bool.not_true, Bool.false_eq_true, ↓reduceIte]
+        split <;> rfl
+      simp [this]; omega
 
 /-- the frame model's `resolve` = the caller's side (`post`) applied to what `evm.Call` returned -/
 theorem resolve_is_post_of_fork_call (h : CallHdr N) (callee : St N → Outcome × St N × Nat) (s : St N) (keep gas : Nat) :
